@@ -645,7 +645,15 @@ def b_keyseq_n(eng, n, st):
     return eng.key_orders[k][0]
 
 
+def b_const_map(eng, n, st):
+    """const_map(m, v): the map of m's type that sends every key to v (ghost initialisation)"""
+    m = eng.ev(n.args[0], st)
+    v = eng.coerce(eng.ev(n.args[1], st), m.ty.v, st, n)
+    return Val(z3.K(m.ty.k.sort(), v.t), m.ty)
+
+
 BUILTINS = {
+    "const_map": b_const_map,
     "keypos_n": b_keypos_n, "keyseq_n": b_keyseq_n,
     "last_keypos": b_last_keypos,
     "assign_members": b_assign_members,
